@@ -1965,6 +1965,12 @@ func (t *Topic) anotherUserSub(sess *Session, asUid, target types.Uid, asChan bo
 	// Check if it's a new invite. If so, save it to database as a subscription.
 	// Saved subscription does not mean the user is allowed to post/read
 	userData, existingSub := t.perUser[target]
+	if existingSub && userData.isChan {
+		// The access mode given to a channel reader is fixed, and the reader's subscription is not stored
+		// under this topic's name: there is nothing an approver can change.
+		sess.queueOut(ErrPermissionDeniedReply(pkt, now))
+		return nil, errors.New("cannot change access mode of a channel reader")
+	}
 	if t.cat == types.TopicCatP2P && !existingSub {
 		// A P2P topic has exactly two participants, both are cached even when deleted: nobody else can be invited.
 		sess.queueOut(ErrPermissionDeniedReply(pkt, now))
